@@ -23,6 +23,11 @@ func init() {
 		return NewSimpleBootstrap(cmd, cwd)
 	}
 	simworld.ResetFrontEnd = func() { initDone = false }
+	// a front end that initialises eagerly (before the first invocation): the real InitHandler, then the flag
+	simworld.EagerInit = func(sandbox rapidcore.LambdaInvokeAPI, timeoutSec int64, bs interop.Bootstrap) {
+		InitHandler(sandbox, "$LATEST", timeoutSec, bs)
+		initDone = true
+	}
 }
 
 func TestVerifWorker(t *testing.T) {
